@@ -408,6 +408,11 @@ class BodyAn:
 # ---------------------------------------------------------------------- constructors / normal forms
 def mk_field(base, adt, name):
     key = adt.split("::")[-1] + "." + name
+    if base[0] == "closure":
+        # a captured variable read off a closure value built right here (a closure spliced into its user)
+        for n, e in base[2]:
+            if n == name:
+                return e
     if base[0] == "adt":
         for n, e in base[2]:
             if n == name:
